@@ -260,18 +260,25 @@ def main(tier, seed, only=None):
     max_rss = [0]
     # ---- (a)
     if not only or only == "a":
-        fam = list(const_family()) + families.vocabulary_family()
+        # pure stack manipulation (permutations below an unchanged top, copies, drops): the back-ends have loops
+        # that only these blocks reach; and the general prefix tree every other check uses
+        stack7 = [B.I("SWAP1"), B.I("SWAP2"), B.I("SWAP3"), B.I("DUP1"), B.I("DUP2"), B.I("POP"), B.P(1)]
+        fam = (list(const_family()) + families.vocabulary_family() + list(B.tree(stack7, 4, max_need=5))
+               + list(B.tree(B.CORE, 3)))
         if tier != "quick":
             fam += list(families.rule_family(1))
         cfgs = configs.configs(1)
+
+        new_budget = [0]
 
         def on_a(cfg, block, status, value):
             chk.add("evaluations")
             stats["a_units"] += 1
             if status != "ok":
                 stats["a_budget"] += 1
-                chk.violation("budget;%s;shape=%s" % (status, shape(block)),
-                              {"part": "a", "block": B.to_text(block), "config": list(cfg), "status": status})
+                if chk.violation("budget;%s;shape=%s" % (status, shape(block)),
+                                 {"part": "a", "block": B.to_text(block), "config": list(cfg), "status": status}):
+                    new_budget[0] += 1
                 return
             if value["cpu"] > 1.0:
                 chk.cov.setdefault("slow_units", []).append([B.to_text(block)[:300], list(cfg), round(value["cpu"], 2)])
@@ -293,7 +300,10 @@ def main(tier, seed, only=None):
         heavy = list(heavy_family())
         tasks = [(cfg, [b]) for cfg in cfgs[:2] for b in heavy]
         tasks += [(cfg, ch) for cfg in cfgs for ch in pool.chunks(fam, max(200, len(fam) // 16 + 1))]
-        pool.run_tasks(tasks, work_a, setup=driver.setup_ctx, unit_timeout=CPU_BUDGET_S * 4, on_result=on_a)
+        pool.run_tasks(tasks, work_a, setup=driver.setup_ctx, unit_timeout=CPU_BUDGET_S * 4, on_result=on_a,
+                       stop=lambda: new_budget[0] >= 30)
+        if new_budget[0] >= 30:
+            chk.cov["stopped_early"] = "part (a) stopped after 30 units over budget that no known finding explains"
         chk.sample({"part": "a", "family_size": len(fam), "configs": len(cfgs), "example": B.to_text(fam[17])})
     # ---- (b)
     if not only or only == "b":
